@@ -332,11 +332,18 @@ public:
 			else { UInt x = a.u(); x.exportOverride(asU(t[3])); setU(t[1], x); }
 		}
 		else if (op == "tap") { Val &a = get(t[1]); if (a.isBit()) tap(a.b()); else tap(a.u()); }
+		else if (op == "attrp") {      // attrp NAME SRC : NAME = attribute(SRC, ...) - the signal routed THROUGH the attribute node
+			Val &a = get(t[2]); SignalAttributes at; at.maxFanout = 4;
+			if (a.isBit()) { Bit x = attribute(a.b(), at); setB(t[1], x); } else { UInt x = attribute(a.u(), at); setU(t[1], x); }
+		}
 		else if (op == "attr") { Val &a = get(t[1]); SignalAttributes at; at.maxFanout = 8; if (a.isBit()) attribute(a.b(), at); else attribute(a.u(), at); }
 		else if (op == "mem") {        // mem NAME depth width [noconf] [zero]
 			auto m = std::make_shared<Memory<UInt>>(std::stoull(t[2]), UInt(bw(t[3])));
 			m->setName(t[1]);
-			for (size_t i = 4; i < t.size(); i++) { if (t[i] == "noconf") m->noConflicts(); else if (t[i] == "zero") m->initZero(); }
+			for (size_t i = 4; i < t.size(); i++) {
+				if (t[i] == "noconf") m->noConflicts(); else if (t[i] == "zero") m->initZero();
+				else if (t[i] == "exact") m->undefinedReadAddrBehavior(hlim::Node_Memory::UndefinedReadAddrBehavior::EXACT);   // merge all candidate words of a partially undefined read address
+			}
 			mems[t[1]] = m;
 		}
 		else if (op == "memwrite") {   // memwrite MEM ADDR DATA   (conditional when inside if-scopes)
